@@ -1934,8 +1934,39 @@ impl Merger {
         right_offset: usize,
         num_keys: usize,
     ) -> Result<(BooleanArray, BooleanArray, BooleanArray)> {
-        let in_left = Self::not_all_null(combined_batch, 0, num_keys)?;
-        let in_right = Self::not_all_null(combined_batch, right_offset, num_keys)?;
+        // The key columns are wherever the source schema has them, not necessarily
+        // first: find them by name (the target side carries the `target_` prefix).
+        let schema = combined_batch.schema();
+        let mut in_left: Option<BooleanArray> = None;
+        let mut in_right: Option<BooleanArray> = None;
+        for key in &self.params.on {
+            let (Some((left_idx, _)), Some((right_idx, _))) = (
+                schema.column_with_name(key),
+                schema.column_with_name(&format!("target_{}", key)),
+            ) else {
+                // Unexpected layout: fall back to the positional convention
+                in_left = None;
+                in_right = None;
+                break;
+            };
+            let left_valid = arrow::compute::is_not_null(combined_batch.column(left_idx))?;
+            let right_valid = arrow::compute::is_not_null(combined_batch.column(right_idx))?;
+            in_left = Some(match in_left {
+                Some(acc) => arrow::compute::or(&acc, &left_valid)?,
+                None => left_valid,
+            });
+            in_right = Some(match in_right {
+                Some(acc) => arrow::compute::or(&acc, &right_valid)?,
+                None => right_valid,
+            });
+        }
+        let (in_left, in_right) = match (in_left, in_right) {
+            (Some(in_left), Some(in_right)) => (in_left, in_right),
+            _ => (
+                Self::not_all_null(combined_batch, 0, num_keys)?,
+                Self::not_all_null(combined_batch, right_offset, num_keys)?,
+            ),
+        };
         let in_both = arrow::compute::and(&in_left, &in_right)?;
         let left_only = arrow::compute::and(&in_left, &arrow::compute::not(&in_right)?)?;
         let right_only = arrow::compute::and(&arrow::compute::not(&in_left)?, &in_right)?;
